@@ -143,7 +143,8 @@ def isolation_rule(ctx, I):
                        'the stream processor shares %s with the live plugin (shallow copy or stored reference): '
                        'filtering a file would modify the live state' % live_hit)
         copies = [e for e in s.trace if e[0] == 'copy']
-        if not any(e[1] == 'deep' and e[2] == 'LIVE.state' for e in copies):
+        custom = any(e[0] == 'custom-copy' and e[1] == '__deepcopy__' and e[2] == 'LIVE.state' for e in s.trace)
+        if not custom and not any(e[1] == 'deep' and e[2] == 'LIVE.state' for e in copies):
             ctx.report('C20.R1', where, 'state not deep-copied', 'copy events: %s' % [(e[1], e[2]) for e in copies])
         for e in s.trace:
             if e[0] == 'write' and str(e[4]).startswith('LIVE'):
@@ -160,6 +161,35 @@ def isolation_rule(ctx, I):
                            'open episode, owed recovery); something on the construction path re-initialises the copy, so the '
                            'file is filtered from a different state than the live hooks would use')
                 break
+        # a class that customises the copy protocol: the copy the processor works on must still carry every attribute of the
+        # live state (a deep copy of it, or the same immutable / external value)
+        for e in s.trace:
+            if e[0] != 'custom-copy':
+                continue
+            ctx.instance('C20.R9', (e[1], e[2]))
+            src = e[2]
+            hobj = s.heap.get((v.oid, 'gcodeHandlers'))
+            clone = s.heap.get((hobj.oid, 'state')) if isinstance(hobj, Obj) else None
+            if src != 'LIVE.state' or not isinstance(clone, Obj):
+                continue
+            names = sorted(set(a for (c, a) in I.fieldspec if c == 'ExcludeRegionState') |
+                           set(a for (o2, a) in s.heap if o2 == src))
+            for a in names:
+                if str(a).startswith('@') or a == '_logger':
+                    continue
+                sv = s.heap.get((src, a))
+                if sv is None:
+                    sv = I.materialise(s, Obj(src), 'ExcludeRegionState', a)
+                    s.heap[(src, a)] = sv
+                cv = s.heap.get((clone.oid, a))
+                def same(cx, sx):
+                    return vkey(cx) == vkey(sx) or (isinstance(sx, Obj) and isinstance(cx, Obj) and ('(%s)' % sx.oid) in cx.oid)
+                ok = cv is not None and all(any(same(cx, sx) for sx in live_alts(s, sv)) for cx in live_alts(s, cv)) \
+                    and len(live_alts(s, cv)) == len(live_alts(s, sv))
+                if not ok:
+                    ctx.report('C20.R9', 'ExcludeRegionState.%s' % e[1], 'attribute %s is not carried over by %s' % (a, e[1]),
+                               'the custom copy leaves %s = %r in the clone where the live state has %r: the offline filter '
+                               'starts from a different state than the live hooks would use' % (a, cv, sv))
         h = s.heap.get((v.oid, 'gcodeHandlers'))
         if not (isinstance(h, Obj) and ('fresh', h.oid) in s.flags):
             ctx.report('C20.R1', where, 'handlers not private', 'the processor does not create its own GcodeHandlers')
@@ -309,6 +339,8 @@ def run(ctx, tier):
     declare(ctx)
     ctx.rule('C20.R8', 'the processor\'s private copy starts out equal to the live state: nothing on the construction path (the '
                        'processor, its own GcodeHandlers, its comm stub) writes into the copied state', floor=1)
+    ctx.rule('C20.R9', 'if a class customises the copy protocol (__deepcopy__ / __copy__), the copy of the live state still '
+                       'carries every attribute of it (standard deep copies do by construction)', floor=0)
     ctx.rule('C20.R7', 'the one parser instance the processor (and the handlers) share carries nothing from line to line: '
                        'parse() re-assigns every attribute a reader uses, on every path', floor=10)
     from . import rules_c18
